@@ -12,6 +12,8 @@
 //	                   AddBlock every query is asked from EVERY known block as head; readers start at any known block
 //	                   (also abandoned branches) and are stepped interleaved with further AddBlocks.
 //	                   tree also stores blocks no validator would accept (duplicates, bad windows, broken deps).
+//	treefree           as treeclean, but a child of the best block may be stored without becoming best (Repository.AddBlock
+//	                   permits it, the node's fork choice never does it): readers then stand on descendants of best.
 //	long               a 90..130-block trunk with an early long side branch and a late short one; the same txs are
 //	                   included on several branches, some of them more than 100 blocks after their block ref, so that
 //	                   every tx is looked up through BOTH paths of Chain.HasTransaction (recent-ancestor scan for
@@ -25,6 +27,7 @@ import (
 	"encoding/json"
 	"flag"
 	"fmt"
+	"math/big"
 	"math/rand"
 	"os"
 	"path/filepath"
@@ -67,6 +70,13 @@ type runStat struct {
 	ReaderAband   int      `json:"readersStartedOffCanonical"`
 	Reads         int      `json:"reads"`
 	Obsolete      int      `json:"obsoleteFlagged"`
+	ReadAboveBest int      `json:"readsFromAboveBest"`       // Read with the position higher than the best block
+	ReadSibBelow  int      `json:"readsFromSiblingOneBelow"` // position one below best, not best's parent
+	ReadDescBest  int      `json:"readsFromDescendantOfBest"`
+	HeadsShape    int      `json:"addsOnSideBranchTip"` // new block with conflicts >= 1 whose parent was a head
+	Subs          int      `json:"subscriptions"`
+	SubMsgs       int      `json:"subscriptionMessages"`
+	SubObsolete   int      `json:"subscriptionObsolete"`
 	Errors        []string `json:"errors,omitempty"`
 }
 
@@ -97,6 +107,7 @@ type reader struct {
 	id   int
 	br   chain.BlockReader
 	held []string
+	pos  *blk // where the driver believes the reader stands
 	done bool
 }
 
@@ -117,6 +128,9 @@ type run struct {
 	nonce   uint64
 	st      runStat
 	maxSib  int
+	free    bool // a child of the best block may be stored without becoming best
+	ss      *subServer
+	wsubs   []*wsub
 }
 
 var devs = genesis.DevAccounts()
@@ -233,7 +247,9 @@ func (r *run) addBlock(parent *blk, txs []*txr, revs []bool, asBest bool) *blk {
 	for i, t := range txs {
 		bb.Transaction(t.tx)
 		r.serial++
-		receipts = append(receipts, &tx.Receipt{Reverted: revs[i], GasUsed: r.serial})
+		receipts = append(receipts, &tx.Receipt{Reverted: revs[i], GasUsed: r.serial, Outputs: []*tx.Output{{
+			Events:    tx.Events{{Address: devs[1].Address, Topics: []thor.Bytes32{{byte(r.serial)}}, Data: []byte{1}}},
+			Transfers: tx.Transfers{{Sender: devs[2].Address, Recipient: devs[1].Address, Amount: big.NewInt(int64(r.serial))}}}}})
 		sers = append(sers, r.serial)
 	}
 	b := bb.Build()
@@ -252,6 +268,9 @@ func (r *run) addBlock(parent *blk, txs []*txr, revs []bool, asBest bool) *blk {
 	if err := r.repo.AddBlock(b, receipts, conflicts, asBest); err != nil {
 		r.fail("AddBlock", err)
 		return nil
+	}
+	if conflicts >= 1 && parent.children == 1 {
+		r.st.HeadsShape++
 	}
 	n := &blk{id: b.Header().ID(), parent: parent, num: num, ts: ts, score: parent.score + 1, txs: txs, revs: revs}
 	n.name = r.bids.Name(n.id[:])
@@ -310,6 +329,9 @@ func (r *run) addBlock(parent *blk, txs []*txr, revs []bool, asBest bool) *blk {
 	r.emit(trace.Ev{"e": "Add", "b": n.name, "p": parent.name, "num": num, "ts": ts, "conflicts": conflicts, "txs": tn,
 		"revs": revs, "sers": sers, "asbest": asBest, "best": r.bname(r.repo.BestBlockSummary().Header.ID()),
 		"heads": hn, "confl": cn})
+	if asBest {
+		r.drainSubs() // the subscriptions' server side reads now; let them run dry before anything else happens
+	}
 	return n
 }
 
@@ -479,7 +501,7 @@ func (r *run) queryAll(h *blk, others []*blk) {
 // ---------------------------------------------------------------------------------------------- readers
 
 func (r *run) startReader(pos *blk) {
-	rd := &reader{id: len(r.readers) + 1, br: r.repo.NewBlockReader(pos.id), held: names(r.chainOf(pos))}
+	rd := &reader{id: len(r.readers) + 1, br: r.repo.NewBlockReader(pos.id), held: names(r.chainOf(pos)), pos: pos}
 	r.readers = append(r.readers, rd)
 	r.st.Readers++
 	on := false
@@ -497,9 +519,31 @@ func (r *run) startReader(pos *blk) {
 // step performs one Read and lets the naive subscriber apply it: drop what is flagged obsolete, append the rest.
 // The blocks go through api.ConvertBlock exactly as api/subscriptions' blockReader does.
 func (r *run) step(rd *reader) int {
+	// the shape of this read, by the driver's own bookkeeping
+	desc := false
+	for x := rd.pos.parent; x != nil; x = x.parent {
+		if x == r.best {
+			desc = true
+		}
+	}
+	switch {
+	case desc:
+		r.st.ReadDescBest++
+	case rd.pos.num > r.best.num:
+		r.st.ReadAboveBest++
+	case rd.pos.num+1 == r.best.num && r.best.parent != rd.pos:
+		r.st.ReadSibBelow++
+	}
 	ebs, err := rd.br.Read()
 	if err != nil {
-		r.fail(fmt.Sprintf("BlockReader.Read r%d", rd.id), err)
+		r.st.Errors = append(r.st.Errors, "BlockReader.Read: "+err.Error())
+		ev := trace.Ev{"e": "Error", "what": "BlockReader.Read", "r": rd.id, "err": err.Error(), "pos": rd.pos.name, "best": r.best.name}
+		if desc {
+			ev["ctx"] = "position-descends-from-best"
+		} else if rd.pos.num > r.best.num {
+			ev["ctx"] = "position-above-best"
+		}
+		r.emit(ev)
 		rd.done = true
 		return 0
 	}
@@ -526,6 +570,15 @@ func (r *run) step(rd *reader) int {
 		}
 	}
 	r.st.Reads++
+	if len(ebs) > 0 {
+		if last := ebs[len(ebs)-1]; !last.Obsolete {
+			if b, ok := r.byID[last.Header().ID()]; ok {
+				rd.pos = b
+			}
+		} else if b, ok := r.byID[last.Header().ParentID()]; ok {
+			rd.pos = b
+		}
+	}
 	r.emit(trace.Ev{"e": "Read", "r": rd.id, "out": out, "held": append([]string{}, rd.held...)})
 	return len(ebs)
 }
@@ -669,7 +722,7 @@ func (r *run) tree(maxBlocks int, clean bool) {
 		if parent == nil {
 			break
 		}
-		asBest := parent == r.best || r.rng.Intn(2) == 0
+		asBest := (parent == r.best && !r.free) || r.rng.Intn(2) == 0
 		txs, revs, raw := r.pickTxs(parent, clean, 2)
 		if raw {
 			r.st.RawBlocks++
@@ -692,15 +745,31 @@ func (r *run) tree(maxBlocks int, clean bool) {
 				r.step(rd)
 			}
 		}
+		// websocket subscriptions of every kind, opened at any known block not above best (abandoned branches included);
+		// they share the handler's message caches
+		if !r.free && len(r.wsubs) < 6 && r.rng.Intn(3) == 0 {
+			r.startSub(subKinds[(len(r.wsubs)+int(r.st.Seed%5+5))%5], r.notAboveBest())
+		}
 	}
 	// one reader from every known block at the end, then everybody reads until quiescent
-	for i, b := range r.blocks {
-		if i%2 == 0 || b.children == 0 {
-			r.startReader(b)
-		}
+	for _, b := range r.blocks {
+		r.startReader(b)
 	}
 	for _, rd := range r.readers {
 		r.drain(rd)
+	}
+	if !r.free {
+		for _, k := range subKinds {
+			r.startSub(k, r.notAboveBest())
+		}
+	}
+}
+
+func (r *run) notAboveBest() *blk {
+	for {
+		if b := r.blocks[r.rng.Intn(len(r.blocks))]; b.num <= r.best.num {
+			return b
+		}
 	}
 }
 
@@ -884,6 +953,7 @@ func (r *run) long() {
 }
 
 func (r *run) finish() {
+	r.closeSubs()
 	r.st.Events = len(r.evs)
 	r.st.Blocks = len(r.blocks) - 1
 	r.st.Txs = len(r.txs)
@@ -922,6 +992,9 @@ func oneRun(seed int64, mode string, blocks int) (r *run) {
 	case "tree":
 		r.tree(blocks, false)
 	case "treeclean":
+		r.tree(blocks, true)
+	case "treefree":
+		r.free = true
 		r.tree(blocks, true)
 	case "long":
 		r.long()
